@@ -67,6 +67,7 @@ type Runner struct {
 	Applied map[*chaingen.Node]bool // nodes that were on the best chain at some time (full state, supplement)
 	pendUpd []updRec
 	lastRev *chaingen.Node
+	elemNode map[*chaingen.Node]*chaingen.Node // whose element accumulator the stored state of a block carries
 	Meta  map[types.TransactionID]Meta
 	NoCoq string // reason why this history has no Coq case ("" = it has one)
 	recs  []rec
@@ -79,16 +80,23 @@ type Runner struct {
 func NewRunner(w *World, fail func(kind, detail string)) *Runner {
 	s := mgrsim.NewSim(w.T, nil)
 	r := &Runner{W: w, Sim: s, CM: s.CM, Tip: w.T.Nodes[0], Start: w.T.Nodes[0], Known: map[*chaingen.Node]bool{w.T.Nodes[0]: true}, Applied: map[*chaingen.Node]bool{w.T.Nodes[0]: true},
-		Meta: map[types.TransactionID]Meta{}, Fail: fail, Stats: map[string]int{}, MW: 2_000_000}
+		Meta: map[types.TransactionID]Meta{}, elemNode: map[*chaingen.Node]*chaingen.Node{w.T.Nodes[0]: w.T.Nodes[0]}, Fail: fail, Stats: map[string]int{}, MW: 2_000_000}
 	return r
 }
 
+// meta returns what is known about a transaction that is pooled or confirmed (so its
+// signatures are intact: a damaged copy with the same id may have been refused earlier).
 func (r *Runner) meta(id types.TransactionID, dflt Meta) Meta {
 	if m, ok := r.Meta[id]; ok {
+		m.Corrupt = false
 		return m
 	}
+	dflt.Corrupt = false
 	return dflt
 }
+
+// MetaOf is meta for other packages.
+func (r *Runner) MetaOf(id types.TransactionID, dflt Meta) Meta { return r.meta(id, dflt) }
 
 // AbsBlock projects the transactions of a tree block (signed on its parent).
 func (r *Runner) AbsBlock(n *chaingen.Node) (v1, v2 []ATx) {
@@ -133,6 +141,7 @@ func (r *Runner) Chain(op mgrsim.Op) mgrsim.Obs {
 				n := r.W.T.Nodes[i]
 				if !r.Applied[n] {
 					r.Known[n], r.Applied[n] = true, true
+					r.elemNode[n] = n
 					r.pendUpd = append(r.pendUpd, updRec{n, true})
 				}
 			}
@@ -151,6 +160,8 @@ func (r *Runner) Chain(op mgrsim.Op) mgrsim.Obs {
 			break
 		}
 		r.Known[n] = true
+		// the header-derived state copies the accumulator of the parent's stored state
+		r.elemNode[n] = r.elemNode[n.Parent]
 		r.pendUpd = append(r.pendUpd, updRec{n, false})
 	}
 	o := r.Sim.Do(op)
@@ -174,6 +185,7 @@ func (r *Runner) moved(before, after *chaingen.Node, failed bool) {
 	rc := rec{Op: "chain", Tip: r.W.Info(after)}
 	rev, app := TreePath(before, after)
 	for _, x := range app {
+		r.elemNode[x] = x
 		if !r.Applied[x] {
 			r.Applied[x] = true
 			r.pendUpd = append(r.pendUpd, updRec{x, true})
@@ -216,10 +228,8 @@ func (r *Runner) moved(before, after *chaingen.Node, failed bool) {
 // full state if the block was ever applied, else the header-derived state, whose
 // element accumulator is that of the nearest applied ancestor.
 func (r *Runner) StoredElements(n *chaingen.Node) *chaingen.Node {
-	for ; n != nil; n = n.Parent {
-		if r.Applied[n] {
-			return n
-		}
+	if e, ok := r.elemNode[n]; ok && e != nil {
+		return e
 	}
 	return r.W.T.Nodes[0]
 }
@@ -244,6 +254,7 @@ func (r *Runner) Adopt(b types.Block) bool {
 	}
 	n := r.W.T.AddBlock(b, "")
 	if n != nil {
+		r.elemNode[n] = r.elemNode[before]
 		r.pendUpd = append(r.pendUpd, updRec{n, false})
 	}
 	if n == nil || !n.ChainValid() {
@@ -472,6 +483,9 @@ func (r *Runner) RecordMine(b types.Block) {
 	}
 	r.observe(&rc)
 }
+
+// LastReverted returns the block whose transactions the manager re-offers (nil: none yet).
+func (r *Runner) LastReverted() *chaingen.Node { return r.lastRev }
 
 // Steps returns the number of recorded calls.
 func (r *Runner) Steps() int { return len(r.recs) }
